@@ -28,7 +28,7 @@ for line in open(res):
         checks[c.group(1)] = {"exit": int(c.group(2)), "violation_lines": int(c.group(3)), "first": c.group(4).strip()[:240]}
     d["checks"] = checks
     d["confirmed"] = bool(d["applies"] and d.get("demo_exit_without_change") == 0 and d.get("demo_exit_with_change") == 1
-                          and "passed" in d.get("suite_with_change", "") and "failed" not in d.get("suite_with_change", ""))
+                          and "passed" in d.get("suite_with_change", "") and " failed" not in d.get("suite_with_change", "") and " error" not in d.get("suite_with_change", ""))
     d["detected_by"] = sorted(k for k, v in checks.items() if v["exit"] == 1 and v["violation_lines"] > 0)
     notes = ""
     if os.path.exists(os.path.join(src, "notes.md")):
